@@ -20,3 +20,4 @@ pub mod hostile_server;
 pub mod chaos;
 pub mod regrace;
 pub mod rrbulk;
+pub mod rejstall;
